@@ -201,6 +201,7 @@ Definition is_Number (v : pyv) : bool :=
   match v with PInt _ | PBool _ | PFloat _ | PNpInt _ | PNpFloat _ _ => true | _ => false end.
 Definition is_basestring (v : pyv) : bool := match v with PStr _ _ _ => true | _ => false end.
 Definition is_bytes (v : pyv) : bool := false.            (* byte strings are outside every claim *)
+Definition is_complex (v : pyv) : bool := false.          (* complex values are classified POther: no Number of the model *)
 Definition is_int (v : pyv) : bool := match v with PInt _ | PBool _ => true | _ => false end.
 Definition is_float (v : pyv) : bool := match v with PFloat _ | PNpFloat true _ => true | _ => false end.
 Definition is_int_or_float (v : pyv) : bool := is_int v || is_float v.
